@@ -470,5 +470,11 @@ type feig::tlv::ChangeConfiguration debug=ChangeConfiguration
 "#;
 
 pub fn shipped() -> Table {
-    parse_table(SHIPPED)
+    shipped_static().clone()
+}
+
+/// The shipped table, parsed once per process.
+pub fn shipped_static() -> &'static Table {
+    static T: std::sync::OnceLock<Table> = std::sync::OnceLock::new();
+    T.get_or_init(|| parse_table(SHIPPED))
 }
